@@ -125,6 +125,11 @@ def outside_model(m):
     return m.startswith("unsup") or m.startswith("fuel")
 
 
+def is_known(c, text):
+    """does a known finding explain this case text? (no counting)"""
+    return any(re.search(f["match"], text, re.S) for f in c.known)
+
+
 class Runner:
     def __init__(self, c, hb):
         self.c, self.hb = c, hb
@@ -207,7 +212,7 @@ class Runner:
                 runs, _ = self.rerun(cands[:30], r.lang)
                 hit = None
                 for x in runs:
-                    if x.verdict.startswith(want) and x.calls != "(build (ctor))":
+                    if x.verdict.startswith(want) and x.calls != "(build (ctor))" and not is_known(self.c, case_text(x)):
                         line = pinned_line(x)
                         if hit is None or len(line) < len(hit[0]):
                             hit = (line, case_text(x))
